@@ -436,21 +436,43 @@ def stft_real(P, i, p):
     kw["ola"] = P.la.overlap_add.list
   else:
     kw["ola"] = None
+  proc = lambda blk: [2 * v for v in blk]
+  style = p.get("style", "deco")
+  if style == "direct":                  # stft(func, **kw)(sig)
+    return P.la.stft(proc, **kw)(i[0])
+  if style in ("override", "partial-override"):
+    # defaults given when the processor is built, overridden when it is
+    # called: what counts is the call-time size (and the hop it implies)
+    late = {"size": kw.pop("size")}
+    if "hop" in kw:
+      late["hop"] = kw.pop("hop")
+    kw["size"] = p.get("size0", 2)
+    if style == "override":
+      return P.la.stft(proc, **kw)(i[0], **late)
+    return P.la.stft(**kw)(proc)(i[0], **late)
   deco = P.la.stft(**kw)
-  func = deco(lambda blk: [2 * v for v in blk])
+  func = deco(proc)
   return func(i[0])
+
+
+def _stft_style(W, p):
+  p["style"] = W.weighted("stft-style", [(3, "deco"), (1, "direct"),
+                                         (2, "override"),
+                                         (1, "partial-override")])
+  p["size0"] = W.pick("size0", [1, 2, 16])
+  return p
 
 
 def stft_params(W):
   p = ola_params(W)
   p["ola"] = True
-  return p
+  return _stft_style(W, p)
 
 
 def stft_blk_params(W):
   p = ola_params(W)
   p["ola"] = False
-  return p
+  return _stft_style(W, p)
 
 
 stage("stft", params=stft_params, weight=4)(
